@@ -227,7 +227,7 @@ Qed.
 
 Theorem wf2_step v k s o : WF2 s -> WF2 (fst (step v k s o)).
 Proof.
-  intros Hw. destruct o as [c|c kind x isCtl|c|c|c|c|x newc| |d|c pre|c x|c t|c|c pre]; cbn [step].
+  intros Hw. destruct o as [c|c kind x isCtl|c|c|c|c|x newc| |d|c pre|c x|c t|c|c pre|c x0]; cbn [step].
   - destruct ((0 <? maxConn k) && (maxConn k <=? N.of_nat (length (sess s)))); [exact Hw|].
     destruct (mem c (streams s)) eqn:Es; [exact Hw|]. destruct Hw as [W1 W2 W3 W4 W5 W6]. cbn [fst].
     assert (Hns : mem c (sess s) = false).
@@ -262,6 +262,9 @@ Proof.
     + apply nodup_set. exact W2.
     + intros c' H. apply get_set_some in H. destruct H as [->|H]; [rewrite Hse; exact Es|exact (W5 c' H)].
   - destruct (mem c (streams s)); [|exact Hw]. destruct Hw as [W1 W2 W3 W4 W5 W6]. split; assumption.
+  - destruct (mem c (sess s) && negb (mem c (closed s))) eqn:Eg; [|exact Hw].
+    cbn [fst]. apply andb_true_iff in Eg. destruct Eg as [Eg _].
+    apply (wf2_ctl_only s); [|exact Hw]. eapply co_trans; [apply co_rereg; exact Eg|apply co_bump].
   - destruct (mem c (sess s) && negb (mem c (closed s))) eqn:Eg; [|exact Hw].
     cbn [fst]. apply andb_true_iff in Eg. destruct Eg as [Eg _].
     apply (wf2_ctl_only s); [|exact Hw]. eapply co_trans; [apply co_rereg; exact Eg|apply co_bump].
@@ -347,7 +350,7 @@ Qed.
 
 Lemma dead_step v k s o c : Dead c s -> Dead c (fst (step v k s o)).
 Proof.
-  intros Hd. destruct o as [c1|c1 kind x isCtl|c1|c1|c1|c1|x newc| |d|c1 pre|c1 x|c1 t|c1|c1 pre]; cbn [step].
+  intros Hd. destruct o as [c1|c1 kind x isCtl|c1|c1|c1|c1|x newc| |d|c1 pre|c1 x|c1 t|c1|c1 pre|c1 x0]; cbn [step].
   - destruct ((0 <? maxConn k) && (maxConn k <=? N.of_nat (length (sess s)))); [exact Hd|].
     destruct (mem c1 (streams s)) eqn:Es; [exact Hd|]. destruct Hd as [D1 D2]. split; cbn [fst]; proj; cbn [mem].
     + rewrite D1. apply orb_true_r.
@@ -369,6 +372,9 @@ Proof.
   - destruct (mem c1 (sess s)); [|exact Hd]. cbn [fst].
     pose proof (dead_ctl_only c s _ (co_unregister c1 s) Hd) as [D1 D2]. split; assumption.
   - destruct (mem c1 (streams s)); exact Hd.
+  - destruct (mem c1 (sess s) && negb (mem c1 (closed s))) eqn:Eg; [|exact Hd].
+    cbn [fst]. apply andb_true_iff in Eg. destruct Eg as [Eg _].
+    apply (dead_ctl_only c s); [|exact Hd]. eapply co_trans; [apply co_rereg; exact Eg|apply co_bump].
   - destruct (mem c1 (sess s) && negb (mem c1 (closed s))) eqn:Eg; [|exact Hd].
     cbn [fst]. apply andb_true_iff in Eg. destruct Eg as [Eg _].
     apply (dead_ctl_only c s); [|exact Hd]. eapply co_trans; [apply co_rereg; exact Eg|apply co_bump].
